@@ -47,7 +47,18 @@ fn run_body(sc: &Scenario) {
     }
 }
 
-fn run_one(name: &str, pb: usize, max_secs: f64) -> i32 {
+/// extra knobs of the child: capture the schedule of iteration K into a file / start from such a file
+#[derive(Clone, Debug, Default)]
+struct Ckpt {
+    /// write loom's path file right before iteration K runs
+    capture_at: Option<u64>,
+    /// start from the path in this file and run exactly one iteration
+    from: bool,
+    file: Option<String>,
+    trace: bool,
+}
+
+fn run_one(name: &str, pb: usize, max_secs: f64, ck: &Ckpt) -> i32 {
     let sc = match scen::find(name) {
         Some(s) => s,
         None => {
@@ -68,6 +79,29 @@ fn run_one(name: &str, pb: usize, max_secs: f64) -> i32 {
     b.checkpoint_interval = 1_000_000_000;
     b.log = false;
     b.location = false;
+    if let Some(f) = &ck.file {
+        if let Some(k) = ck.capture_at {
+            // `i % interval == 0` holds exactly at i = K (and 2K, ...): one write, before iteration K
+            let _ = std::fs::remove_file(f);
+            b.checkpoint_file = Some(f.into());
+            b.checkpoint_interval = k.max(1) as usize;
+        } else if ck.from {
+            // the loaded path is the first iteration; stop at the top of the second
+            b.checkpoint_file = Some(f.into());
+            b.checkpoint_interval = 1;
+            b.max_permutations = Some(2);
+        }
+    }
+    if ck.trace {
+        b.log = true;
+        b.location = true;
+        let sub = tracing_subscriber::fmt::Subscriber::builder()
+            .with_env_filter(tracing_subscriber::EnvFilter::new(std::env::var("LOOMX_TRACE").unwrap_or_else(|_| "loom=trace".into())))
+            .with_writer(std::io::stderr)
+            .without_time()
+            .finish();
+        let _ = tracing_subscriber::util::SubscriberInitExt::try_init(sub);
+    }
     let sc2 = sc.clone();
     let start = Instant::now();
     let res = std::panic::catch_unwind(std::panic::AssertUnwindSafe(|| {
@@ -179,10 +213,11 @@ struct ChildOutcome {
     stderr_tail: String,
 }
 
-fn spawn_child(name: &str, pb: usize, max_secs: f64) -> ChildOutcome {
+fn spawn_child(name: &str, pb: usize, max_secs: f64, extra: &[String]) -> ChildOutcome {
     let exe = std::env::current_exe().expect("current_exe");
     let child = Command::new(exe)
         .args(["run-one", name, "--pb", &pb.to_string(), "--max-secs", &max_secs.to_string()])
+        .args(extra)
         .stdin(Stdio::null())
         .stdout(Stdio::piped())
         .stderr(Stdio::piped())
@@ -234,6 +269,13 @@ struct JobResult {
     violations: Vec<Violation>,
 }
 
+/// transient files (loom path of a failing iteration) live next to the binary, never under /tmp
+fn scratch_file(name: &str) -> String {
+    let dir = std::env::current_exe().ok().and_then(|p| p.parent().map(|d| d.join("loomx-scratch"))).unwrap_or_else(|| std::path::PathBuf::from("loomx-scratch"));
+    let _ = std::fs::create_dir_all(&dir);
+    dir.join(name).to_string_lossy().into_owned()
+}
+
 fn fingerprint(sc: &Scenario, prop: &str, rule: &str) -> String {
     format!("loomx/{}/{}.{}/{}", sc.component, prop, rule, sc.shape)
 }
@@ -243,8 +285,8 @@ fn bounds_json(job: &Job) -> serde_json::Value {
 }
 
 /// run the child; returns (counts, verdict, failing PanicInfo)
-fn attempt(job: &Job) -> (ChildResult, Verdict, Option<rt::PanicInfo>) {
-    let co = spawn_child(&job.sc.name, job.pb, job.max_secs + 5.0 - 5.0);
+fn attempt(job: &Job, extra: &[String]) -> (ChildResult, Verdict, Option<rt::PanicInfo>) {
+    let co = spawn_child(&job.sc.name, job.pb, job.max_secs, extra);
     let failure = co.result.as_ref().and_then(|r| r.failure.clone()).or(co.panic.clone());
     let mut res = co.result.clone().unwrap_or_default();
     if co.result.is_none() {
@@ -271,7 +313,7 @@ fn attempt(job: &Job) -> (ChildResult, Verdict, Option<rt::PanicInfo>) {
 
 fn run_job(job: &Job) -> JobResult {
     let t0 = Instant::now();
-    let (res, verdict, failure) = attempt(job);
+    let (res, verdict, failure) = attempt(job, &[]);
     let mut caps: Vec<String> = Vec::new();
     let mut exhaustive = true;
     let mut violations = Vec::new();
@@ -284,7 +326,12 @@ fn run_job(job: &Job) -> JobResult {
         Verdict::Violation(list) => {
             exhaustive = false;
             // same scenario once more in a fresh child: same fingerprints at the same iteration with the same log
-            let (_r2, v2, f2) = attempt(job);
+            // the second run also captures loom's path of the failing iteration (one file write)
+            let k = failure.as_ref().map(|f| f.iteration).unwrap_or(0);
+            let ck = scratch_file(&format!("ckpt-{}-{}", std::process::id(), job.sc.name.replace('/', "_")));
+            let (_r2, v2, f2) = attempt(job, &["--ckpt-at".into(), k.to_string(), "--ckpt-file".into(), ck.clone()]);
+            let loom_path: serde_json::Value = std::fs::read_to_string(&ck).ok().and_then(|t| serde_json::from_str(&t).ok()).unwrap_or(serde_json::Value::Null);
+            let _ = std::fs::remove_file(&ck);
             let same = match (&v2, &failure, &f2) {
                 (Verdict::Violation(l2), Some(a), Some(b)) => {
                     l2.iter().map(|x| (&x.0, &x.1)).collect::<Vec<_>>() == list.iter().map(|x| (&x.0, &x.1)).collect::<Vec<_>>() && a.iteration == b.iteration && a.log == b.log
@@ -305,6 +352,7 @@ fn run_job(job: &Job) -> JobResult {
                             "bounds": bounds_json(job),
                             "iteration": f.iteration,
                             "log": f.log.iter().map(|e| e.short()).collect::<Vec<_>>(),
+                            "loom_path": loom_path.clone(),
                         }),
                     });
                 }
@@ -468,35 +516,52 @@ fn cmd_replay(path: &str) -> i32 {
         }
     };
     let job = Job { sc, pb, max_secs };
-    println!("replaying scenario {} with preemption bound {} (loom explores deterministically; the failing schedule is iteration {})", name, pb, rp["iteration"]);
-    let (res, verdict, failure) = attempt(&job);
-    match verdict {
-        Verdict::Violation(list) => {
-            let f = failure.unwrap();
-            println!("failure at iteration {}: {}", f.iteration, f.message.lines().next().unwrap_or(""));
-            println!("event log of the failing execution:");
-            for e in &f.log {
-                println!("  {}", e.short());
+    let report = |verdict: Verdict, res: &ChildResult, failure: Option<rt::PanicInfo>| -> Option<i32> {
+        match verdict {
+            Verdict::Violation(list) => {
+                let f = failure.unwrap();
+                println!("failure: {}", f.message.lines().next().unwrap_or(""));
+                println!("event log of the failing execution:");
+                for e in &f.log {
+                    println!("  {}", e.short());
+                }
+                let fps: Vec<String> = list.iter().map(|(p, r, _)| fingerprint(&job.sc, p, r)).collect();
+                println!("fingerprints: {:?}", fps);
+                if fps.iter().any(|f| *f == want_fp) || want_fp.is_empty() {
+                    println!("REPRODUCED {}", want_fp);
+                    Some(1)
+                } else {
+                    println!("a different fingerprint showed up (wanted {})", want_fp);
+                    Some(0)
+                }
             }
-            let fps: Vec<String> = list.iter().map(|(p, r, _)| fingerprint(&job.sc, p, r)).collect();
-            println!("fingerprints: {:?}", fps);
-            if fps.iter().any(|f| *f == want_fp) || want_fp.is_empty() {
-                println!("REPRODUCED {}", want_fp);
-                1
-            } else {
-                println!("a different fingerprint showed up (wanted {})", want_fp);
-                0
+            Verdict::Clean => {
+                println!("no violation in {} execution(s)", res.executions);
+                Some(0)
+            }
+            Verdict::Capped(c) => {
+                println!("not decided: {}", c);
+                None
             }
         }
-        Verdict::Clean => {
-            println!("no violation in {} executions", res.executions);
-            0
-        }
-        Verdict::Capped(c) => {
-            println!("not decided: {}", c);
-            0
+    };
+    // 1. exactly the recorded schedule: loom starts from the stored path and runs one iteration
+    if !rp["loom_path"].is_null() {
+        let ck = scratch_file(&format!("replay-{}", std::process::id()));
+        if std::fs::write(&ck, rp["loom_path"].to_string()).is_ok() {
+            println!("replaying the recorded schedule of scenario {} (preemption bound {}, originally iteration {})", name, pb, rp["iteration"]);
+            let (res, verdict, failure) = attempt(&job, &["--from-ckpt".into(), "--ckpt-file".into(), ck.clone()]);
+            let _ = std::fs::remove_file(&ck);
+            if let Some(code) = report(verdict, &res, failure) {
+                return code;
+            }
+            println!("the recorded schedule no longer applies to this build; exploring the scenario again");
         }
     }
+    // 2. fall back to the deterministic exploration with the same bounds (stops at the first failure)
+    println!("re-exploring scenario {} with preemption bound {}", name, pb);
+    let (res, verdict, failure) = attempt(&job, &[]);
+    report(verdict, &res, failure).unwrap_or(0)
 }
 
 fn main() {
@@ -511,7 +576,13 @@ fn main() {
             let name = args.get(2).cloned().unwrap_or_default();
             let pb = arg_val(&args, "--pb").and_then(|s| s.parse().ok()).unwrap_or(2);
             let max_secs = arg_val(&args, "--max-secs").and_then(|s| s.parse().ok()).unwrap_or(20.0);
-            run_one(&name, pb, max_secs)
+            let ck = Ckpt {
+                capture_at: arg_val(&args, "--ckpt-at").and_then(|s| s.parse().ok()),
+                from: args.iter().any(|a| a == "--from-ckpt"),
+                file: arg_val(&args, "--ckpt-file"),
+                trace: args.iter().any(|a| a == "--trace"),
+            };
+            run_one(&name, pb, max_secs, &ck)
         }
         Some("list") => {
             for s in scen::all_scenarios() {
